@@ -38,4 +38,8 @@ extern void InsertPadding(unsigned NumBytes, Boolean OnlyReserve);
 
 extern void asmcode_init(void);
 
+#ifdef ASL_VERIF
+extern void asl_verif_trace(char const* pKind, Byte const* pData, LongWord Len);
+#endif
+
 #endif /* ASMCODE_H */
